@@ -17,6 +17,7 @@ package ggql
 import (
 	"bytes"
 	"fmt"
+	"go/token"
 	"io"
 	"io/fs"
 	"reflect"
@@ -216,7 +217,8 @@ func (root *Root) regField(obj *Object, fd *FieldDef, goField string, args ...st
 	}
 	if meta.Kind() == reflect.Struct {
 		if field, ok := meta.FieldByNameFunc(func(name string) bool {
-			return strings.EqualFold(name, goField)
+			// Only an exported field can be read.
+			return strings.EqualFold(name, goField) && token.IsExported(name)
 		}); ok {
 			verifPoint("rf_write", fd)
 			fd.goField = field.Name
@@ -226,8 +228,14 @@ func (root *Root) regField(obj *Object, fd *FieldDef, goField string, args ...st
 			return
 		}
 	}
-	for i := objMeta.NumMethod() - 1; 0 <= i; i-- {
-		m := objMeta.Method(i)
+	// The type can have been met as a value first. Methods with a pointer
+	// receiver are only in the method set of the pointer type.
+	methMeta := objMeta
+	if methMeta.Kind() != reflect.Ptr && methMeta.Kind() != reflect.Interface {
+		methMeta = reflect.PtrTo(methMeta)
+	}
+	for i := methMeta.NumMethod() - 1; 0 <= i; i-- {
+		m := methMeta.Method(i)
 		if strings.EqualFold(m.Name, goField) {
 			verifPoint("rf_write", fd)
 			fd.method = &m.Func
